@@ -5,17 +5,9 @@ Open Scope N_scope.
 
 (* ---------- the gate ---------- *)
 
-(* recv_fb with room in the buffer is Rec/Recv.v's receive path, except for the unprotected record with
-   undecodable content (discarded since d2d55dd; Recv.v still answers it with decode_error) *)
-Lemma recv_fb_open W lease s w :
-  (w_epoch w =? 0) && is_bad (w_clear w) = false -> recv_fb W lease false s w = recv W lease s w.
-Proof.
-  intro H. unfold recv_fb, recv, gated. cbn [andb].
-  destruct (r_closed s); [reflexivity|].
-  destruct (r_epoch s <? w_epoch w); [reflexivity|].
-  destruct (negb (check maxseq48 (get_win W (w_epoch w) (r_wins s)) (w_seq w))); [reflexivity|].
-  destruct (w_epoch w =? 0); [|reflexivity]. cbn [andb] in H. now rewrite H.
-Qed.
+(* recv_fb with room in the buffer IS Rec/Recv.v's receive path *)
+Lemma recv_fb_open W lease s w : recv_fb W lease false s w = recv W lease s w.
+Proof. reflexivity. Qed.
 
 (* the content a record is dispatched with, when it gets that far: is it a handshake record? *)
 Definition hs_content (w : wire) : bool :=
@@ -29,9 +21,9 @@ Proof. destruct c; reflexivity. Qed.
 (* a full reassembly buffer is invisible to every record that is not a handshake record: application data,
    alerts, change_cipher_spec, ACKs, RRC and undecodable content are processed exactly as with room *)
 Theorem full_buffer_passes_non_handshake W lease s w :
-  hs_content w = false -> recv_fb W lease true s w = recv_fb W lease false s w.
+  hs_content w = false -> recv_fb W lease true s w = recv W lease s w.
 Proof.
-  unfold hs_content, recv_fb, gated. intro H. cbn [andb].
+  unfold hs_content, recv_fb, recv, gated. intro H. cbn [andb].
   destruct (r_closed s); [reflexivity|].
   destruct (r_epoch s <? w_epoch w); [reflexivity|].
   destruct (negb (check maxseq48 (get_win W (w_epoch w) (r_wins s)) (w_seq w))); [reflexivity|].
@@ -50,7 +42,7 @@ Proof.
   destruct (r_closed s); [reflexivity|].
   destruct (r_epoch s <? w_epoch w); [destruct (r_epoch s + 1 <? w_epoch w); reflexivity|].
   destruct (negb (check maxseq48 (get_win W (w_epoch w) (r_wins s)) (w_seq w))); [reflexivity|].
-  destruct (w_epoch w =? 0); [rewrite H; now destruct (is_bad (w_clear w))|].
+  destruct (w_epoch w =? 0); [now rewrite H|].
   destruct (negb (r_init s)); [reflexivity|].
   destruct (negb (len (r_cid s) =? 0) && negb (w_ctype w =? ct_cid)); [reflexivity|].
   destruct (w_ctype w =? ct_ccs); [discriminate H|].
@@ -72,7 +64,7 @@ Proof.
   intros Hc Hi He Hle Hct Ha Hp Hcid.
   assert (E : (w_epoch w =? 0) = false) by lia.
   rewrite full_buffer_passes_non_handshake.
-  - rewrite recv_fb_open by now rewrite E. now apply authentic_delivered_iff_window.
+  - now apply authentic_delivered_iff_window.
   - unfold hs_content. destruct (w_epoch w =? 0) eqn:E0; [lia|].
     destruct (w_ctype w =? ct_ccs); [reflexivity|]. now rewrite Ha.
 Qed.
@@ -119,10 +111,41 @@ Qed.
 Theorem undecodable_content_dropped W lease full s w :
   w_epoch w = 0 -> w_clear w = CBad -> recv_fb W lease full s w = (s, []).
 Proof.
-  intros He Hb. unfold recv_fb. rewrite He, Hb. cbn [N.eqb is_bad].
+  intros He Hb. unfold recv_fb, gated, dispatch. rewrite He, Hb. cbn [N.eqb is_hs andb orb].
   destruct (r_closed s); [reflexivity|].
   destruct (r_epoch s <? 0) eqn:E; [lia|].
-  destruct (negb (check maxseq48 (get_win W 0 (r_wins s)) (w_seq w))); reflexivity.
+  destruct (negb (check maxseq48 (get_win W 0 (r_wins s)) (w_seq w))); [reflexivity|].
+  now rewrite andb_false_r.
+Qed.
+
+(* a record typed change_cipher_spec whose body is not the single byte 01 never produces any output, whatever
+   epoch it claims and in every state (no suite authenticates change_cipher_spec records, so the code
+   treats an undecodable one like an unprotected one: discarded) *)
+Theorem ccs_undecodable_no_output W lease full s w :
+  w_ctype w = ct_ccs -> w_clear w = CBad -> snd (recv_fb W lease full s w) = [].
+Proof.
+  intros Hct Hb. unfold recv_fb, gated, dispatch. rewrite Hct, Hb. cbn [ccs_view is_hs].
+  rewrite andb_false_r, N.eqb_refl, orb_true_r.
+  destruct (r_closed s); [reflexivity|].
+  destruct (r_epoch s <? w_epoch w); [destruct (r_epoch s + 1 <? w_epoch w); reflexivity|].
+  destruct (negb (check maxseq48 (get_win W (w_epoch w) (r_wins s)) (w_seq w))); [reflexivity|].
+  destruct (w_epoch w =? 0); [reflexivity|].
+  destruct (negb (r_init s)); [reflexivity|].
+  destruct (negb (len (r_cid s) =? 0) && negb (ct_ccs =? ct_cid)); reflexivity.
+Qed.
+
+(* the established case exactly: claiming the current protected epoch, it leaves the state untouched - the
+   finding "change_cipher_spec-typed record claiming a protected epoch" is repaired (82cb644) *)
+Theorem ccs_claiming_epoch_dropped W lease full s w :
+  r_closed s = false -> r_init s = true -> w_epoch w <> 0 -> w_epoch w <= r_epoch s -> w_ctype w = ct_ccs ->
+  w_clear w = CBad -> len (r_cid s) = 0 ->
+  recv_fb W lease full s w = (s, []).
+Proof.
+  intros Hc Hi He Hle Hct Hb Hcid. unfold recv_fb, gated, dispatch. rewrite Hc, Hi, Hb, Hcid, Hct.
+  destruct (r_epoch s <? w_epoch w) eqn:E1; [lia|].
+  destruct (negb (check maxseq48 (get_win W (w_epoch w) (r_wins s)) (w_seq w))); [reflexivity|].
+  destruct (w_epoch w =? 0) eqn:E0; [lia|].
+  cbn. rewrite andb_false_r. reflexivity.
 Qed.
 
 (* what still surfaces, as coded: a record that AUTHENTICATES under the session keys and whose content does
@@ -134,29 +157,12 @@ Theorem authenticated_undecodable_surfaces W lease full s w :
   check maxseq48 (get_win W (w_epoch w) (r_wins s)) (w_seq w) = true ->
   recv_fb W lease full s w = (s, [OAlert alert_fatal desc_decode_error; OErr]).
 Proof.
-  intros Hc Hi He Hle Hct Ha Hcid Hnc Hk. unfold recv_fb, gated. rewrite Hc, Hk, Hi, Ha, Hcid.
+  intros Hc Hi He Hle Hct Ha Hcid Hnc Hk. unfold recv_fb, gated, dispatch. rewrite Hc, Hk, Hi, Ha, Hcid.
   destruct (r_epoch s <? w_epoch w) eqn:E1; [lia|].
   destruct (w_epoch w =? 0) eqn:E0; [lia|].
   destruct (w_ctype w =? ct_ccs) eqn:E2; [lia|].
   destruct (w_ctype w =? ct_cid) eqn:E3; [lia|].
   cbn. destruct (r_cid s); [|discriminate Hcid]. cbn. now rewrite andb_false_r.
-Qed.
-
-(* what still surfaces from an UNAUTHENTICATED sender, as coded: a record typed change_cipher_spec that claims
-   the current protected epoch is never authenticated (every suite's Decrypt returns change_cipher_spec
-   records unchanged) and, its body not being 01, is answered with a fatal decode_error alert and an error.
-   The ideal "a record claiming protection that does not authenticate has no effect" (C05 forged_inert,
-   C08 forged_dropped) excludes exactly this content type. *)
-Theorem ccs_claiming_epoch_refuted W lease full s w :
-  r_closed s = false -> r_init s = true -> w_epoch w <> 0 -> w_epoch w <= r_epoch s -> w_ctype w = ct_ccs ->
-  w_auth w = None -> w_clear w = CBad -> len (r_cid s) = 0 ->
-  check maxseq48 (get_win W (w_epoch w) (r_wins s)) (w_seq w) = true ->
-  recv_fb W lease full s w = (s, [OAlert alert_fatal desc_decode_error; OErr]).
-Proof.
-  intros Hc Hi He Hle Hct Ha Hb Hcid Hk. unfold recv_fb, gated. rewrite Hc, Hk, Hi, Hb, Hcid, Hct.
-  destruct (r_epoch s <? w_epoch w) eqn:E1; [lia|].
-  destruct (w_epoch w =? 0) eqn:E0; [lia|].
-  cbn. now rewrite andb_false_r.
 Qed.
 
 (* ---------- forged records ---------- *)
